@@ -44,6 +44,45 @@ func checkC07(c *Ctx, w *World) {
 		return
 	}
 	ctx, slot, started, rpcErr := du.Params[1], du.Params[2], du.Params[3], du.Params[4]
+	// ---- C07.started: "that call started after the channel's last response" is stated over the start time handed to the
+	// detector; it must be the clock read in Pick AFTER the channel was chosen (the choice can wait: a round-robin BIND pick
+	// blocks until its channel is READY), not an earlier one
+	{
+		gai := pl.f("(*gcpPicker).getAndIncrementSubConnRef")
+		nsites := 0
+		for _, fn := range p.Funcs {
+			eachInstr(fn, func(in ssa.Instruction) {
+				call, ok := in.(*ssa.Call)
+				if !ok || !isCallTo(call, du, p) || len(call.Call.Args) < 5 {
+					return
+				}
+				nsites++
+				var placements []*ssa.Call
+				if gai != nil {
+					placements = pl.callsIn(pl.pick, gai)
+				}
+				okStart, nNow, why := len(placements) > 0, 0, ""
+				for _, o := range origins(call.Call.Args[3]) {
+					if o.Kind == "zero" {
+						continue // flow-insensitive artefact of a local struct's field; a clock read must exist (below)
+					}
+					now, isNowCall := staticCallNamed(o.Val, "time.Now")
+					if !isNowCall || now.Parent() != pl.pick {
+						okStart, why = false, "the start time is "+o.String()
+						continue
+					}
+					nNow++
+					for _, pc := range placements {
+						if !dominatesInstr(pc, now) {
+							okStart, why = false, "the clock is read at "+p.ipos(now)+", before the channel is chosen at "+p.ipos(pc)
+						}
+					}
+				}
+				c.check(okStart && nNow > 0, "C07.started", "start time of the call handed to the detector", p.ipos(call), "the call's start is time.Now() read in Pick after getAndIncrementSubConnRef returned the channel", "the call's recorded start is not the moment it was placed on its channel: "+why)
+			})
+		}
+		c.floor("C07.started", nsites, 1)
+	}
 	codeDE, _ := p.constValue("google.golang.org/grpc/codes", "DeadlineExceeded")
 	isLastResp := func(v ssa.Value) bool {
 		f, base, ok := loadedField(v)
